@@ -225,7 +225,7 @@ def messy(rng, text: str) -> str:
 
 def gen_ace(rng, platform: str, version: str = "", *, small=None, allow_group=True, allow_nc=True, max_k=4,
             foreign=True, allow_multi=True, allow_neq_multi=False, allow_empty=True, seq=None, action=None,
-            protos=None, flags_ok=True, ws=True, names_ok=True, max_operands=10) -> dict:
+            protos=None, flags_ok=True, ws=True, names_ok=True, max_operands=10, extra_opts=True) -> dict:
     """One extended ACE in a random accepted spelling; returns text + reader-compatible semantics."""
     action = action or rng.choice(["permit", "permit", "deny"])
     pin = proto_in_vocab(platform)
@@ -267,6 +267,13 @@ def gen_ace(rng, platform: str, version: str = "", *, small=None, allow_group=Tr
     flags = []
     if pnum == 6 and flags_ok and rng.random() < 0.3:
         flags = rng.sample(list(names.TCP_FLAGS), rng.randint(1, 3))
+    if extra_opts and flags_ok and rng.random() < 0.12:
+        # keyword/value options: their order is part of the meaning
+        extra = rng.choice([["dscp", rng.choice(["af11", "ef", "cs1", "af43"])], ["precedence", rng.choice(["critical", "internet"])],
+                            ["fragments"], ["time-range", rng.choice(["tr1", "work-hours"])], ["tos", "max-reliability"]])
+        if pnum == 6 and rng.random() < 0.3:
+            extra = ["established"]
+        flags = flags + extra if rng.random() < 0.7 else extra + flags
     logs = []
     if rng.random() < 0.2:
         logs = [rng.choice(names.LOG_WORDS)]
